@@ -42,6 +42,7 @@ def floors(tier):
         "strata": ["static", "static-clamp", "history", "history-copy-then-nice"],
         "events": {"endpoint_invariant": 5000, "noninterference": 2000, "eval.__call__": 20000, "eval.invert": 5000, "copy": 500, "mutator.nice": 500},
         "distinct_nontrivial": 1000,
+        "paths": ["domain-set-from-another-scales-live-list"],
     }
 
 
@@ -238,6 +239,10 @@ def history_case(ctx, mon, rng, S):
         elif r < 0.46:
             # the list the scale hands out (or was given) is edited in place and passed to the setter again
             ops.append([rng.choice(["range-edit-in-place", "domain-edit-in-place"]), i, rng.choice([0, 1]), rand_mag(rng, -3, 6)])
+        elif r < 0.50 and nlive > 1:
+            # the domain list another live scale hands out is given to this one's setter (seeded/C12o: the setter keeps an
+            # all-float list instead of copying it, a later nice() on either scale rewrites it in place under the other)
+            ops.append(["domain-from", i, rng.randrange(nlive)])
         elif r < 0.72:
             ops.append(["nice", i, rng.choice([None, None, 2, 3, 5, 10, 20, 47])])
         else:
@@ -253,6 +258,7 @@ def run_history(ctx, mon, S, case):
     copied = set()
     edited = False
     copy_then_mut = False
+    shared_from = False
     v0 = mon.n_violations
     probs = []
     try:
@@ -268,6 +274,12 @@ def run_history(ctx, mon, S, case):
             if op[0] == "domain":
                 o.domain(op[2])
                 wi["domain"] = list(op[2])
+            elif op[0] == "domain-from":
+                src = objs[op[2]].domain()
+                wi["domain"] = list(src)
+                o.domain(src)
+                if op[2] != op[1]:
+                    shared_from = True
             elif op[0] == "range":
                 o.range(tuple(op[2]) if hash(repr(op[2])) % 5 == 0 else list(op[2]))
                 wi["range"] = list(op[2])
@@ -323,6 +335,8 @@ def run_history(ctx, mon, S, case):
     stratum = "history-copy-then-nice" if copy_then_mut else "history"
     if edited:
         ctx.path("list-edited-in-place-and-set-again")
+    if shared_from:
+        ctx.path("domain-set-from-another-scales-live-list")
     if mon.n_violations > v0:
         vs = mon.violations[-(mon.n_violations - v0):][:4]
         ctx.judge(stratum, VIOLATED, case, finding=vs + probs, key="history:" + (vs[0]["kind"] if vs else "monitor"))
